@@ -264,6 +264,14 @@ def oracle(stores, cases, impl):
                     fbad("fullscan-order", "FULLSCAN: elements are not in engine key order")
             elif calls > len(exp) // eff_count(count) + 1:
                 fbad("fullscan-calls", "FULLSCAN: more calls than |P|/COUNT + 1")
+        elif kind == "Q":
+            toks = dict(t.split("=", 1) for t in out.split(" ") if "=" in t and not t.startswith(("hscan", "sscan", "zscan", "hrevscan", "srevscan", "zrevscan")))
+            hist["concurrent iterations (%s)" % c[1]] = int(toks.get("iterations", "0"))
+            if toks.get("bad") != "0":
+                fails.append(dict(name="concurrent-" + cid, case=dict(case=c[:2], impl=out[:3000]),
+                                  what="while iterations with other MATCH patterns run concurrently, an iteration returns elements that do not match its pattern or misses matching ones"))
+            elif int(toks.get("iterations", "0")) < 20:
+                fails.append(dict(name="concurrent-" + cid, case=dict(case=c[:2], impl=out[:300]), what="the concurrent leg completed too few iterations to mean anything"))
         elif kind == "R":
             hist["range builder"] = hist.get("range builder", 0) + 1
     return fails, hist, nontrivial
@@ -444,9 +452,9 @@ def run(ctx):
         for i, cp in enumerate(corpus):
             runs.append(("corpus%d" % i, "-replay %s" % cp))
         if quick:
-            runs.append(("fresh", "-seed %d -stores 14 -cases 70 -engines mem,pebble -srv 1 -srvbig 5600 -big 5003 -exh 7" % ctx.seed))
+            runs.append(("fresh", "-seed %d -stores 14 -cases 70 -engines mem,pebble -srv 1 -srvbig 5600 -big 5003 -exh 7 -conc 2000" % ctx.seed))
         else:
-            runs.append(("fresh", "-seed %d -stores 1200 -cases 140 -engines mem,pebble,rocksdb -srv 20 -srvbig 5600 -big 5003 -exh 10" % ctx.seed))
+            runs.append(("fresh", "-seed %d -stores 1200 -cases 140 -engines mem,pebble,rocksdb -srv 20 -srvbig 5600 -big 5003 -exh 10 -conc 8000" % ctx.seed))
 
     all_mism, all_fail, total, hist_all, samples, distinct = [], [], 0, {}, [], set()
     engines = {}
@@ -509,6 +517,8 @@ def run(ctx):
              "E = H/S/ZSCAN(+REV), each iterated by feeding the cursor back until empty (bound |P|+3), COUNT in {1,2,3,5,|P|,|P|+1,absent,random}, start cursor "
              "empty / an element / element+0x00 / element minus last byte / above all, MATCH from {*,?,literal} patterns in 35%; R = range builders; "
              "S = the same iteration over the redis protocol against a live 1..4-partition in-process server (model: per-partition stores, merged cursor, COUNT split); "
+             "q.* = concurrent leg: 8 goroutines iterate the same hash/set/zset (forward and reverse) at the same time, each with its own MATCH pattern and COUNT, "
+             "2 s (thorough 8 s) per engine (mem, pebble); every completed iteration must be exactly its matching subset, once, in order; "
              "vbig = one live 2-partition server with a 5600-key table (pipelined SETs), SCAN/ADVSCAN(+REV) with COUNT 4999, 5000, 5001, 5200, 6000, 10000, 10001, 12000 and none; "
              "F = FULLSCAN per type (direct oracle only); one store with 5003 keys and COUNT around MAX_BATCH_NUM; "
              "xs* = a store whose table and collections hold every sentinel-like name (\"0\", \"-\", \"+\", \"(\", \"[\", \"-1\", \"00\", base64-looking, table-like), every COUNT 0..|P|+1, both directions; "
